@@ -409,6 +409,63 @@ def run(ctx):
     if nr == 0:
         ctx.error("R9.4", "no raise in any proxy setter recognised")
     r95(ctx, prog, M, T)
+    r96(ctx, prog)
+
+
+# -- R9.6 ------------------------------------------------------------------------------------------------
+def r96(ctx, prog):
+    """A relationship is reused only for exactly the requested target: the stored target (the reference string of an external
+    relationship, the part of an internal one) is compared with the requested one by plain equality of the unmodified values.
+    Otherwise two different hyperlink addresses (or parts) share one relationship and the later one reads back as the earlier."""
+    from sa import paths as P_
+    from sa.inline import expand
+
+    ctx.rule("R9.6", "relationship reuse matches the exact target (no normalisation of either side)")
+    rels = prog.cls("pptx.opc.package", "_Relationships")
+    gm = rels.methods.get("_get_matching") if rels else None
+    if gm is None:
+        raise AnalysisError("anchor vanished: _Relationships._get_matching")
+    gx = expand(prog, gm, local_only=True)
+    al = P_.aliases(gx)
+    tparam = gm.node.args.args[2].arg
+    probs, hits = [], 0
+    for lp in [n for n in ast.walk(gx) if isinstance(n, ast.For) and isinstance(n.target, ast.Name)]:
+        v = lp.target.id
+        for pth in P_.enum_paths(lp.body):
+            if pth.end != "return" or pth.end_node.value is None or P_.norm(pth.end_node.value, al) != v + ".rId":
+                continue
+            hits += 1
+            # the value compared with the requested target on this path (resolved through the assignments of the path)
+            env = {}
+            for st in pth.stmts():
+                if isinstance(st, ast.Assign) and len(st.targets) == 1 and isinstance(st.targets[0], ast.Name):
+                    env[st.targets[0].id] = st.value
+            cmpd = None
+            for e in pth.events:
+                if e[0] == "cond" and e[2] is True:
+                    for c in ast.walk(e[1]):
+                        if isinstance(c, ast.Compare) and len(c.ops) == 1 and isinstance(c.ops[0], ast.Eq):
+                            sides = [c.left, c.comparators[0]]
+                            srcs = []
+                            for s_ in sides:
+                                s_ = env.get(s_.id, s_) if isinstance(s_, ast.Name) else s_
+                                srcs.append(ast.unparse(s_))
+                            if tparam in srcs or any(tparam in x for x in srcs):
+                                cmpd = srcs
+            if cmpd is None:
+                probs.append("an id is handed out on a path that has not compared the stored target with the requested one")
+                continue
+            other = [x for x in cmpd if x != tparam]
+            ok_other = {"%s.target_ref" % v, "%s.target_part" % v, "%s._target" % v}
+            if tparam not in cmpd or not other or other[0] not in ok_other:
+                probs.append("the stored target and the requested one are compared as `%s == %s`, not as the unmodified values" % (cmpd[0], cmpd[1]))
+    if not hits:
+        ctx.error("_Relationships._get_matching", "no path returning the id of a matching relationship was recognised")
+    elif probs:
+        ctx.violation("R9.6", "_Relationships._get_matching", "; ".join(sorted(set(probs))) + ": two different targets can share one "
+                      "relationship, and the later one reads back as the earlier", file=gm.file, line=gm.line)
+    else:
+        ctx.ok("R9.6", "_Relationships._get_matching", sample={"match": "rel.target_ref / rel.target_part == target, compared as given"})
 
 
 # -- R9.5 ------------------------------------------------------------------------------------------------
